@@ -207,6 +207,11 @@ def clauses_ok(clauses, adts):
 
 
 def well_formed(m, allow_hazard=False):
+    table = {}
+    for f in m.fns:
+        A.set_strict_params(table)
+        table[f.name] = [A.strict_occ(n, f.body) for n, _t in f.params]
+    A.set_strict_params(table)
     return all(A.let_invariants_ok(f.body, allow_hazard) for f in list(m.fns) + [e.fn for e in m.entries])
 
 
